@@ -182,6 +182,34 @@ func c18World(names map[string]string, paths []string, scenario string) *imp.Wor
 		w.AnonImport(paths[0])
 		wrapper = imp.WrapperIndex("dictvalue")
 	}
+	if scenario == "three-imports-then-a-dict-then-the-second" {
+		// two third-party packages and the first path are referenced, then a Dict holds the first use
+		// of another package (its name sorts before the others'), then come the remaining paths
+		w.Ref("x.y/aaa", 0)
+		w.Ref("x.y/aab", 0)
+		w.Ref(paths[0], 0)
+		w.Ref("x.y/aac", imp.WrapperIndex("dictvalue"))
+		for _, p := range paths[1:] {
+			w.Ref(p, 0)
+		}
+		return w
+	}
+	if scenario == "anon-then-fragment" {
+		// the path is an anonymous import; a fragment referring to it is rendered with the File (so the
+		// File has shown a name for it), then the File's own reference follows
+		last := paths[len(paths)-1]
+		w.AnonImport(last)
+		var b strings.Builder
+		jen.Qual(last, "Frag").RenderWithFile(&b, w.F)
+		w.Log = append(w.Log, fmt.Sprintf("Qual(%q).RenderWithFile(file) -> %q", last, b.String()))
+		for _, p := range paths {
+			w.Ref(p, wrapper)
+		}
+		if q := strings.TrimSuffix(strings.TrimSpace(b.String()), ".Frag"); q != "" {
+			w.Expect = map[string]string{last: q}
+		}
+		return w
+	}
 	if scenario == "last-reference-shared-with-an-earlier-file" {
 		// the statement referring to the last path is first rendered as part of ANOTHER File (in which
 		// it is the only import), then added to this one after the other references
@@ -237,6 +265,12 @@ func c18Judge(names map[string]string, w *imp.World) []string {
 			out = append(out, fmt.Sprintf("%q is imported without alias but qualified by %q; its real name is %q", p, u.Qual, names[p]))
 		case s.Name != "" && s.Name != u.Qual:
 			out = append(out, fmt.Sprintf("%q is imported as %q but qualified by %q", p, s.Name, u.Qual))
+		}
+	}
+	// a name the File has shown for a path in a fragment rendered with it stays that path's name
+	for p, q := range w.Expect {
+		if s, ok := specs[p]; !ok || !(s.Name == q || s.Name == "" && names[p] == q) {
+			out = append(out, fmt.Sprintf("a fragment rendered with the File showed %q as %q, but the import block has %v", p, q, s))
 		}
 	}
 	out = append(out, imp.CheckNames(a, w)...)
@@ -358,6 +392,8 @@ func runC18(r *ev.Recorder) {
 			one(ps, "non-ascii-prefix")
 			if names[ps[0]] == names[ps[1]] || guessKey(ps[0]) == guessKey(ps[1]) {
 				one(ps, "last-reference-shared-with-an-earlier-file")
+				one(ps, "three-imports-then-a-dict-then-the-second")
+				one(ps, "anon-then-fragment")
 				// two stand-alone fragments one after the other: the second is qualified by its own name
 				alone := jh.Catch(func() (string, error) { return jen.Qual(ps[1], "Y").GoString(), nil })
 				jh.Catch(func() (string, error) { return jen.Qual(ps[0], "X").GoString(), nil })
